@@ -23,9 +23,12 @@ import (
 // c04-mark is a Go builtin registered by the harness that counts how often a
 // body was entered, so "the body ran on an arity the lambda list forbids" is
 // observed directly, not inferred from a message. Each case is called
-// through five routes (defun + direct call, lambda + funcall, apply with a
-// spread list, ((lambda ...) ...), multiple-value-call) and every route is
-// judged against the reference binder.
+// through seven routes (defun + direct call, the same after Code.Compile,
+// defun + funcall of the symbol, lambda + funcall, apply with a spread list,
+// ((lambda ...) ...), multiple-value-call) and every route is judged against
+// the reference binder. With Ambient the call is made inside a let that
+// binds variables named like the optional/rest/key/aux parameters: under
+// lexical scoping that must not change any binding.
 // ---------------------------------------------------------------------------
 
 var (
@@ -189,6 +192,67 @@ func concrete(toks []string) []string {
 	return out
 }
 
+// literalDefault is the value equal to a parameter's own default: the init
+// form when it is a literal, nil otherwise (no init form, or a computed one).
+func literalDefault(init string) string {
+	if _, err := strconv.Atoi(init); err == nil {
+		return init
+	}
+	return "nil"
+}
+
+// ownDefaults replaces every "=" token of a concrete argument vector by the
+// value equal to the default of the parameter that argument is bound to: the
+// optional at that position, or the declared key named just before it.
+func ownDefaults(l *ref.LL, args []string) []string {
+	keyInit := map[string]string{}
+	for _, k := range l.Keys {
+		keyInit[":"+k.Name] = k.Init
+	}
+	for i, a := range args {
+		if a != "=" {
+			continue
+		}
+		switch {
+		case i < len(l.Req):
+			args[i] = strconv.Itoa(i + 1)
+		case i < len(l.Req)+len(l.Opt):
+			args[i] = literalDefault(l.Opt[i-len(l.Req)].Init)
+		default:
+			args[i] = "nil"
+			if 0 < i {
+				if init, ok := keyInit[args[i-1]]; ok {
+					args[i] = literalDefault(init)
+				}
+			}
+		}
+	}
+	return args
+}
+
+// value probes: every optional and every key is SUPPLIED with nil, with t,
+// or with a value equal to its own default - values an implementation might
+// confuse with "not supplied".
+const valuePerLL = 6
+
+func valueProbe(l *ref.LL, sub int) []string {
+	v := []string{"nil", "t", "="}[sub%3]
+	var toks []string
+	for i := 0; i < len(l.Req)+len(l.Opt); i++ {
+		if i < len(l.Req) && v == "=" {
+			toks = append(toks, "#")
+		} else {
+			toks = append(toks, v)
+		}
+	}
+	if sub/3 == 1 {
+		for i := len(l.Keys) - 1; 0 <= i; i-- {
+			toks = append(toks, ":"+l.Keys[i].Name, v)
+		}
+	}
+	return ownDefaults(l, concrete(toks))
+}
+
 // exhaustive block bookkeeping: per shape, the number of vectors of length
 // 0..L over its alphabet.
 type exhTable struct {
@@ -325,10 +389,14 @@ var variantBases = []int{0, 1, 2, 5, 6, 24, 25, 29, 48 + 1, 96 + 2, 144 + 5, 48 
 
 func nVariantProbes() int { return nVariants * len(variantBases) * probePerLL }
 
+// ambient probes: the call is made where the caller has variables named
+// like the optional, rest, key and aux parameters.
+const ambientPerLL = 6
+
 type layout struct {
-	exh                       *exhTable
-	probeStart, varStart, rnd int
-	total                     int
+	exh                                           *exhTable
+	probeStart, varStart, ambStart, valStart, rnd int
+	total                                         int
 }
 
 var layouts = map[string]*layout{}
@@ -342,11 +410,13 @@ func lamLayout(tier string) *layout {
 	ly.exh = newExhTable(3)
 	if tier == "thorough" {
 		ly.exh = newExhTable(5)
-		nrand = 400000
+		nrand = 300000
 	}
 	ly.probeStart = ly.exh.total()
 	ly.varStart = ly.probeStart + nShapes*probePerLL
-	ly.rnd = ly.varStart + nVariantProbes()
+	ly.ambStart = ly.varStart + nVariantProbes()
+	ly.valStart = ly.ambStart + nShapes*ambientPerLL
+	ly.rnd = ly.valStart + (nShapes+nVariants*len(variantBases))*valuePerLL
 	ly.total = ly.rnd + nrand
 	layouts[tier] = ly
 	return ly
@@ -364,23 +434,53 @@ func genLam(r *rand.Rand, i int, tier string) Case {
 		c.LL = shape(k / probePerLL)
 		c.Args = probeCase(c.LL, k%probePerLL)
 		c.Block = "probe"
-	case i < ly.rnd:
+	case i < ly.ambStart:
 		k := i - ly.varStart
 		v := k / (len(variantBases) * probePerLL)
 		k %= len(variantBases) * probePerLL
 		c.LL = variant(shape(variantBases[k/probePerLL]), v)
 		c.Args = probeCase(c.LL, k%probePerLL)
 		c.Block = "variant-probe"
+	case i < ly.valStart:
+		k := i - ly.ambStart
+		c.LL = shape(k / ambientPerLL)
+		sub := k % ambientPerLL
+		np := []int{len(c.LL.Req), len(c.LL.Req) + len(c.LL.Opt)}[sub/3]
+		c.Args = probeVector(c.LL, np, []int{0, 1, 8}[sub%3])
+		c.Ambient = true
+		c.Block = "ambient-probe"
+	case i < ly.rnd:
+		k := i - ly.valStart
+		if k < nShapes*valuePerLL {
+			c.LL = shape(k / valuePerLL)
+		} else {
+			k -= nShapes * valuePerLL
+			vb := k / valuePerLL
+			c.LL = variant(shape(variantBases[vb%len(variantBases)]), vb/len(variantBases))
+		}
+		c.Args = valueProbe(c.LL, k%valuePerLL)
+		c.Ambient = (k/valuePerLL)%5 == 4
+		c.Block = "value-probe"
 	default:
 		c.LL = shape(r.IntN(nShapes))
 		if r.IntN(5) == 0 {
 			c.LL = variant(c.LL, r.IntN(nVariants))
 		}
 		c.Args = randomArgs(r, c.LL)
+		c.Ambient = r.IntN(4) == 0
 		c.Block = "random"
 	}
 	c.Split = r.IntN(3)
 	return c
+}
+
+// valueToken draws a supplied value: mostly an integer, sometimes nil, t or
+// ("=") the value equal to the parameter's own default.
+func valueToken(r *rand.Rand) string {
+	if r.IntN(5) == 0 {
+		return []string{"nil", "t", "="}[r.IntN(3)]
+	}
+	return "#"
 }
 
 // randomArgs draws an argument vector of length 0..8: mostly well-formed
@@ -412,7 +512,7 @@ func randomArgs(r *rand.Rand, l *ref.LL) []string {
 		if r.IntN(12) == 0 {
 			toks = append(toks, fw.Pick(r, alpha)) // a keyword in a positional slot
 		} else {
-			toks = append(toks, "#")
+			toks = append(toks, valueToken(r))
 		}
 	}
 	if l.HasKey || l.Rest != "" || r.IntN(6) == 0 {
@@ -450,7 +550,7 @@ func randomArgs(r *rand.Rand, l *ref.LL) []string {
 			if 8 <= len(toks)+2 {
 				break
 			}
-			v := "#"
+			v := valueToken(r)
 			if r.IntN(10) == 0 {
 				v = fw.Pick(r, alpha)
 			}
@@ -463,7 +563,7 @@ func randomArgs(r *rand.Rand, l *ref.LL) []string {
 	if 8 < len(toks) {
 		toks = toks[:8]
 	}
-	return concrete(toks)
+	return ownDefaults(l, concrete(toks))
 }
 
 // ---------------------------------------------------------------------------
@@ -495,7 +595,10 @@ func defineMark() {
 		&slip.UserPkg)
 }
 
-var routes = []string{"defun", "funcall", "apply", "direct", "mvcall"}
+// ambientBase+i is the value of the caller's variable named like parameter i.
+const ambientBase = 900
+
+var routes = []string{"defun", "compiled", "symcall", "funcall", "apply", "direct", "mvcall"}
 
 // program renders the call of the case through a route. fname is the name
 // used by the defun route.
@@ -514,11 +617,24 @@ func program(c *Case, route, fname string) string {
 		}
 		return " " + s
 	}
+	wrap := func(call string) string { return call }
+	if c.Ambient {
+		var b []string
+		names, kinds := c.LL.Names()
+		for i, n := range names {
+			if kinds[i] != "req" {
+				b = append(b, fmt.Sprintf("(%s %d)", n, ambientBase+i))
+			}
+		}
+		wrap = func(call string) string { return "(let (" + strings.Join(b, " ") + ") " + call + ")" }
+	}
 	switch route {
-	case "defun":
-		return "(defun " + fname + " " + ll + " " + body + ") (" + fname + sp(args) + ")"
+	case "symcall":
+		return "(defun " + fname + " " + ll + " " + body + ") " + wrap("(funcall '"+fname+sp(args)+")")
+	case "defun", "compiled":
+		return "(defun " + fname + " " + ll + " " + body + ") " + wrap("("+fname+sp(args)+")")
 	case "funcall":
-		return "(funcall " + lam + sp(args) + ")"
+		return wrap("(funcall " + lam + sp(args) + ")")
 	case "apply":
 		k := c.Split
 		if len(c.Args) < k {
@@ -529,15 +645,15 @@ func program(c *Case, route, fname string) string {
 		if k == len(c.Args) {
 			tail = "nil"
 		}
-		return "(apply " + lam + sp(lead) + " " + tail + ")"
+		return wrap("(apply " + lam + sp(lead) + " " + tail + ")")
 	case "direct":
-		return "(" + lam + sp(args) + ")"
+		return wrap("(" + lam + sp(args) + ")")
 	case "mvcall":
 		k := c.Split
 		if len(c.Args) < k {
 			k = len(c.Args)
 		}
-		return "(multiple-value-call " + lam + sp(strings.Join(c.Args[:k], " ")) + " (values" + sp(strings.Join(c.Args[k:], " ")) + "))"
+		return wrap("(multiple-value-call " + lam + sp(strings.Join(c.Args[:k], " ")) + " (values" + sp(strings.Join(c.Args[k:], " ")) + "))")
 	}
 	panic("route " + route)
 }
@@ -555,6 +671,9 @@ func situation(c *Case, res *ref.Result, name, kind string) string {
 	}
 	if note == "" {
 		note = "-"
+	}
+	if c.Ambient && (note == "default" || note == "plain" || note == "with-key-params") {
+		note += " callers-variable-of-same-name"
 	}
 	return note
 }
@@ -581,9 +700,17 @@ func execLam(x *fw.Ctx, c Case) {
 		src := program(&c, route, fname)
 		scope := slip.NewScope()
 		before := bodyRuns.Load()
-		out, err := sl.Eval(scope, src)
+		var (
+			out slip.Object
+			err *sl.Err
+		)
+		if route == "compiled" {
+			out, err = sl.EvalCompiled(scope, src)
+		} else {
+			out, err = sl.Eval(scope, src)
+		}
 		ran := bodyRuns.Load() - before
-		if route == "defun" {
+		if route == "defun" || route == "compiled" || route == "symcall" {
 			slip.UserPkg.Undefine(fname)
 		}
 		sl.Reset()
@@ -593,7 +720,7 @@ func execLam(x *fw.Ctx, c Case) {
 		} else {
 			routeObs[route] = sl.Show(out)
 		}
-		if err != nil && route == "funcall" && len(c.Args) == 0 && strings.HasPrefix(err.Msg, "Too few arguments to funcall") {
+		if err != nil && (route == "funcall" || route == "symcall") && len(c.Args) == 0 && strings.HasPrefix(err.Msg, "Too few arguments to funcall") {
 			// funcall itself refuses a call with no arguments for the
 			// function: judged and reported by part B (builtin=common-lisp:funcall)
 			x.Cover("avoided:funcall-with-zero-arguments(reported by part B)")
